@@ -146,8 +146,8 @@ impl Prop for ValProp {
     }
     fn random_cases(&self, tier: Tier) -> u64 {
         match self.which {
-            Which::C05 | Which::C06 => tier.pick(8_000, 250_000),
-            _ => tier.pick(5_000, 150_000),
+            Which::C05 | Which::C06 => tier.pick(20_000, 250_000),
+            _ => tier.pick(12_000, 150_000),
         }
     }
     fn max_bytes(&self) -> usize {
